@@ -12,7 +12,7 @@ from prov.constants import (PROV, XSD, PROV_ATTRIBUTE_QNAMES, PROV_ATTRIBUTE_LIT
 PREFIXES = ["ex", "ex_1", "dn", "foo", "ex2", "b", "prov", "xsd"]
 URIS = ["http://a/", "http://a/b/", "http://other/", "urn:x:", "http://a/#", "http://www.w3.org/ns/prov#",
         "http://example.org/ns/"]
-LOCALS = ["x", "y", "e1", "e2", "a1", "ag", "a/b", "a.b", "x-1", "u_v", "b1", "Z9"]
+LOCALS = ["x", "y", "e1", "e2", "a1", "ag", "a/b", "a.b", "x-1", "u_v", "b1", "Z9", "run:42", "urn:isbn:0451"]   # (a local part may itself contain colons)
 KINDS = [k.localpart for k in PROV_REC_CLS]
 ELEMENT_KINDS = ["Entity", "Activity", "Agent"]
 RELATION_KINDS = [k for k in KINDS if k not in ELEMENT_KINDS]
@@ -24,7 +24,9 @@ STRINGS = ["", "a", "hello world", 'say "hi"', "line1\nline2", "tab\there", "caf
            'multi\nline ending in a quote"', 'has """ inside\nsecond line', "carriage\rreturn", '"', '""', "\\",
            "ends with backslash\\", '\\"', "prov:looks-like-a-name", " leading and trailing ",
            # not in Unicode normal form C (combining marks, a compatibility character, conjoining jamo): kept as given
-           "Cafe\u0301 de\u0301compose\u0301", "\u212bngstro\u0308m", "\u1100\u1161\u11a8", "\tpadded\n "]
+           "Cafe\u0301 de\u0301compose\u0301", "\u212bngstro\u0308m", "\u1100\u1161\u11a8", "\tpadded\n ",
+           # line and paragraph separators other than LF/CR (str.splitlines() breaks at them, XML 1.0 and JSON do not)
+           "line\u2028separator, paragraph\u2029separator, next\u0085line"]
 LANGS = ["en", "fr", "en-GB"]
 FOREIGN_TYPES = [("ex", "http://a/", "mytype"), ("xsd", XSD.uri, "decimal"), ("xsd", XSD.uri, "gYear"),
                  ("xsd", XSD.uri, "short"), ("foo", "http://other/", "T"),
@@ -125,6 +127,9 @@ class Gen:
         if k == "dt":
             return self.dt()
         if k == "uri":
+            if self.chance(0.15):
+                # URIs that already carry percent-escapes, a query, or characters outside ASCII: kept as given
+                return Identifier(r.choice(["http://h/with%20space", "http://h/q?x=%3A%2F&y=1", "http://h/ünï/é", "http://h/100%25"]))
             return Identifier(r.choice(URIS) + self.local())
         if k == "qn":
             return self.qname(nss)
